@@ -303,6 +303,10 @@ def swap_index(p):
                 W[i * d + j, j * d + i] = 1
         _eq(got, (W @ X) if p["row_only"] else (W @ X @ W.T), "swap(X%s) with sys and dim omitted" % (", row_only=True" if p["row_only"] else ""))
         return
+    if p.get("sys_omitted"):  # `sys` omitted while `dim` is given: the first two subsystems are exchanged, whatever their number
+        got = swap(X, dim=dim)
+        _eq(got, R.ref_swap(X, [1, 2], rd, cd, False), "swap(X, dim=...) with sys omitted")
+        return
     got = swap(X, list(p["sys"]), dim, _flag(p["row_only"], p.get("flagform")))
     _eq(got, R.ref_swap(X, p["sys"], rd, cd, p["row_only"]), "swap")
 
